@@ -391,6 +391,10 @@ func (d *Data) ServeHTTP(uuid dvid.UUID, ctx *datastore.VersionedCtx, w http.Res
 		return
 	}
 
+	if len(parts) < 6 {
+		server.BadRequest(w, r, "%q must be followed by size/offset", parts[3])
+		return
+	}
 	switch dataShape.ShapeDimensions() {
 	case 2:
 		sizeStr, offsetStr := parts[4], parts[5]
